@@ -19,7 +19,7 @@ func VerifC03_KernelMagnitude() {
 		return math.Abs(got-s*want) <= 1e-12*s*(math.Abs(want)+math.Abs(f)+math.Abs(g)+math.Abs(h)) && !math.IsInf(got, 0) && !math.IsNaN(got)
 	}
 	close1 := func(got, want float64) bool { return math.Abs(got-want) <= 1e-12 }
-	switch verifChoose("kernel", 0, 5) {
+	switch verifChoose("kernel", 0, 6) {
 	case 0:
 		cs, sn, r := impl.Dlartg(f, g)
 		cs2, sn2, r2 := impl.Dlartg(s*f, s*g)
@@ -54,6 +54,33 @@ func VerifC03_KernelMagnitude() {
 		verifAssert(math.Abs(m00-mx) <= 1e-10 && math.Abs(m11-mn) <= 1e-10 && math.Abs(m01) <= 1e-10 && math.Abs(m10) <= 1e-10, "Dlasv2: the rotations diagonalise [f g; 0 h] to diag(ssmax, ssmin)")
 		a1, a2, b1, b2, b3, b4 := impl.Dlasv2(s*f, s*g, s*h)
 		verifAssert(closeS(a1, mn) && closeS(a2, mx) && close1(b1, snr) && close1(b2, csr) && close1(b3, snl) && close1(b4, csl), "Dlasv2 scaled: values scale, rotations do not change")
+	case 6:
+		d := vals[verifChoose("d", 0, len(vals)-1)]
+		a, b, c := f, g, h
+		// check runs Dlanv2 on t*(a, b, c, d) and verifies the returned Schur
+		// form against the input, relative to t; it returns the eigenvalues
+		// divided by t with the real parts in ascending order. (Which of two
+		// real eigenvalues comes first is not specified and does depend on the
+		// magnitude of the input: the real/complex decision uses an absolute
+		// threshold, as in the reference.)
+		check := func(t float64, who string) (r1, i1, r2, i2 float64) {
+			aa, bb, cc, dd, rt1r, rt1i, rt2r, rt2i, cs, sn := impl.Dlanv2(t*a, t*b, t*c, t*d)
+			t00, t01 := cs*aa-sn*cc, cs*bb-sn*dd
+			t10, t11 := sn*aa+cs*cc, sn*bb+cs*dd
+			tol := 1e-12 * t * (math.Abs(a) + math.Abs(b) + math.Abs(c) + math.Abs(d) + 1)
+			verifAssert(math.Abs(t00*cs-t01*sn-t*a) <= tol && math.Abs(t00*sn+t01*cs-t*b) <= tol && math.Abs(t10*cs-t11*sn-t*c) <= tol && math.Abs(t10*sn+t11*cs-t*d) <= tol && close1(cs*cs+sn*sn, 1), who+": the rotation maps the input to the returned Schur form")
+			verifAssert(cc == 0 || (aa == dd && bb*cc < 0), who+": standardised form: cc = 0, or aa = dd with bb*cc < 0")
+			verifAssert(rt1r == aa && rt2r == dd && rt1i == -rt2i && (cc == 0) == (rt1i == 0) && !math.IsNaN(aa+bb+cc+dd) && !math.IsInf(aa+bb+cc+dd, 0), who+": eigenvalues reported from the diagonal, conjugate pair iff cc != 0, all finite")
+			r1, i1, r2, i2 = rt1r/t, rt1i/t, rt2r/t, rt2i/t
+			if r1 > r2 {
+				r1, i1, r2, i2 = r2, i2, r1, i1
+			}
+			return
+		}
+		r1, i1, r2, i2 := check(1, "Dlanv2")
+		q1, j1, q2, j2 := check(s, "Dlanv2 (scaled)")
+		etol := 1e-7 * (math.Abs(a) + math.Abs(b) + math.Abs(c) + math.Abs(d) + 1) // a double eigenvalue is only sqrt(eps)-accurate
+		verifAssert(math.Abs(q1-r1) <= etol && math.Abs(q2-r2) <= etol && math.Abs(math.Abs(j1)-math.Abs(i1)) <= etol && math.Abs(math.Abs(j2)-math.Abs(i2)) <= etol, "Dlanv2 scaled: the eigenvalues of s*M are s times those of M")
 	}
 	verifReach("end")
 }
